@@ -60,6 +60,7 @@ func init() {
 			{ID: "C02.R16", Floor: 3, Run: targetFlagsCoverIndex, Text: "the target flags are resized in step with the entity index (= C06.R14)"},
 			{ID: "C02.R17", Floor: 12, Run: c11r2, Text: "removal events precede the removal (= C11.R2): the handle is still alive while its EntityRemoved event is delivered; recycling first makes the entity dead inside its own removal event"},
 			{ID: "C02.R18", Floor: 1, Run: deactivateOnlyOnRetire, Text: "a table is marked inactive only by the retiring method (= C03.R13): an inactive table that is still mapped hides its entities from filter-based removal and from Reset"},
+			{ID: "C02.R19", Floor: 1, Run: marshalAllPaths, Text: "entity JSON encodes id and generation on every path (= C17.R8): a fast path for id 0 flattens the pool's sentinel generation"},
 		},
 	})
 }
